@@ -901,8 +901,13 @@ class tensor:
                     if np.array_equal(self.data, Y.data):
                         all_diffs[p_idx] = 0
                     else:
+                        # Difference in floating point: boolean data cannot be
+                        # subtracted and narrow integer types wrap around
                         all_diffs[p_idx] = np.max(
-                            np.abs(self.data.ravel() - Y.data.ravel())
+                            np.abs(
+                                self.data.ravel().astype(float)
+                                - Y.data.ravel().astype(float)
+                            )
                         )
 
             if return_details is False:
